@@ -9,6 +9,7 @@ import (
 
 	"github.com/lugu/qiloop/bus"
 	"github.com/lugu/qiloop/bus/directory"
+	"github.com/lugu/qiloop/bus/net"
 	"github.com/lugu/qiloop/bus/services"
 	"github.com/lugu/qiloop/bus/session"
 	probe "github.com/lugu/qiloop/zzprobe"
@@ -38,6 +39,8 @@ func (c19) Gen(r *rand.Rand, tier string, run int) *core.Case {
 	}
 	servers := 1 + r.IntN(2)
 	c.Params["servers"] = servers
+	c.Params["multi_addr"] = r.IntN(2)
+	c.Params["addr_order"] = r.IntN(2)
 	n := 2 + r.IntN(5)
 	for g := 0; g < n; g++ {
 		k := 1 + r.IntN(2)
@@ -107,7 +110,26 @@ func (c19) Run(c *core.Case, env *core.Env) {
 			env.Violate("harness/setup", "server session: %v", err)
 			return
 		}
-		srv, err := services.NewServer(sess, addr, auth)
+		var srv bus.Server
+		if c.P("multi_addr", 0) == 1 {
+			// a process that advertises two addresses, only one of which
+			// answers (services.NewServer spelled out)
+			var l net.Listener
+			var ns bus.Namespace
+			l, err = net.Listen(addr)
+			if err == nil {
+				eps := []string{addr, fmt.Sprintf("tcp://alt-srv%d:9", i)}
+				if c.P("addr_order", 0) == 1 {
+					eps[0], eps[1] = eps[1], eps[0]
+				}
+				ns, err = services.Namespace(sess, eps)
+			}
+			if err == nil {
+				srv, err = bus.StandAloneServer(l, auth, ns)
+			}
+		} else {
+			srv, err = services.NewServer(sess, addr, auth)
+		}
 		if err == nil {
 			_, err = srv.NewService(fmt.Sprintf("Probe%d", i), probe.ProbeObject(&ProbeImpl{Env: env, Obj: i}))
 		}
